@@ -600,6 +600,9 @@ def build(e, seed=0, arrays=None):
     from funsor.tensor import Tensor
     from funsor.terms import Cat, Independent, Lambda, Number, Slice, Stack, Variable
 
+    if arrays is None:
+        arrays = {}  # identical leaf nodes of one build share one array (hence, by hash-consing, one Tensor)
+
     def dom(dtype, shape):
         return Array[dtype, tuple(shape)]
 
